@@ -1,4 +1,5 @@
 SPECIFICATION FairSpec
+CONSTANT Ser = TRUE
 CONSTANT Bar = TRUE
 CONSTANT Pop = "diffflags"
 INVARIANT TypeOK
